@@ -108,14 +108,14 @@ theorem Step.restLt_mono {s : Step} {a b : Nat} (h : s.restLt a) (hab : a ≤ b)
 theorem Step.restLt_of_le {s : Step} {a b : Nat} (h : s.restLe a) (hab : a < b) : s.restLt b := by
   cases s <;> simp_all [Step.restLe, Step.restLt]; omega
 
-/-- a token step either is the EOF token or has consumed at least one byte -/
+/-- what a token step leaves: never longer, and strictly shorter unless the token is EOF -/
 def Step.progress (s : Step) (n : Nat) : Prop :=
   match s with
-  | .tok t r _ => t.kind = .eof ∨ r.length < n
+  | .tok t r _ => r.length ≤ n ∧ (t.kind ≠ .eof → r.length < n)
   | .err _ => True
 
 theorem Step.progress_of_lt {s : Step} {n : Nat} (h : s.restLt n) : s.progress n := by
-  cases s <;> simp_all [Step.restLt, Step.progress]
+  cases s <;> simp_all [Step.restLt, Step.progress]; omega
 
 theorem unexpectedChar_progress (c : Cur) (b n : Nat) : (unexpectedChar c b).progress n := by
   unfold unexpectedChar; split <;> (try split) <;> simp [Step.progress, mkErr]
